@@ -64,6 +64,7 @@ def run(rep: Report, tier: str) -> None:
 	rule_iteration_protocol(rep, idx)
 	rule_template_path_match(rep, idx)
 	rule_attr_walkers(rep, idx)
+	rule_ternary_merge(rep, idx)
 
 
 def rule_a(rep: Report, idx: SourceIndex) -> None:
@@ -561,3 +562,43 @@ def rule_attr_walkers(rep: Report, idx: SourceIndex) -> None:
 					r.ok(key, (rel, lp.lineno))
 	if n_walkers == 0:
 		r.skip('walkers', None, 'no recursive walker over .attrs found in the reflection layer')
+
+
+def rule_ternary_merge(rep: Report, idx: SourceIndex) -> None:
+	"""`a if c else b` has the type of a only when both arms have the SAME type including its arguments; otherwise it is the union of both. The handler
+	receives the two arm types as whole reflections; comparing a projection of them (`.types`, the class alone) merges `list[int]` and `list[float]`
+	into the first arm, and the variable declared from the expression gets a type its value does not have on the else path."""
+	from vlib.match import X, atoms, nodes
+	r = rep.rule('C03/conditional-arms-merged-on-whole-type', 'on_ternary_operator returns one arm type alone only under an equality test of the two arm reflections themselves (class and type arguments), never of a projection such as .types', floor=1)
+	m = idx.mod('rogw/tranp/semantics/reflections.py')
+	cls = m.cls('ProceduralResolver')
+	f = cls.method('on_ternary_operator') if cls else None
+	if f is None:
+		r.skip('on_ternary_operator', (m.relpath, 1), 'ProceduralResolver.on_ternary_operator vanished')
+		return
+	params = [p_ for p_ in f.params() if p_ not in ('self', 'node')]
+	if len(params) != 3:
+		r.skip('on_ternary_operator', f.where, f'unexpected parameters {params}')
+		return
+	first, _, second = params
+	fx = X(f)
+	decided = False
+	for ret in nodes(fx, ast.Return):
+		v = ret.value
+		if v is None:
+			continue
+		names = {x.id for x in ast.walk(v) if isinstance(x, ast.Name)}
+		if not ({first, second} & names) or {first, second} <= names:
+			continue  # the union of both arms (or something else): not the merge
+		decided = True
+		known = atoms(fx, ret)
+		whole = any(p_ and isinstance(a, ast.Compare) and len(a.ops) == 1 and isinstance(a.ops[0], ast.Eq) and {unparse(a.left), unparse(a.comparators[0])} == {first, second} for a, p_ in known)
+		proj = [(unparse(a), p_) for a, p_ in known if isinstance(a, ast.Compare) and any(isinstance(x, ast.Attribute) and isinstance(x.value, ast.Name) and x.value.id in (first, second) for x in ast.walk(a))]
+		if whole:
+			r.ok('merge-condition', (m.relpath, ret.lineno))
+		elif proj:
+			r.violate('merge-condition', (m.relpath, ret.lineno), f'on_ternary_operator returns `{unparse(v)[:60]}` (one arm alone) under {proj}: the comparison looks at a projection of the arm types, so arms of the same class with different type arguments (`[n] if c else [1.5]`: list[int] / list[float]) are typed as the first arm and the declared variable is `std::vector<int>` although the else path yields floats', unparse(ret)[:120])
+		else:
+			r.skip('merge-condition', (m.relpath, ret.lineno), f'condition of the single-arm return not recognised: {[(unparse(a), p_) for a, p_ in known]}')
+	if not decided:
+		r.skip('merge-condition', f.where, 'on_ternary_operator has no return that hands back one arm alone')
